@@ -25,7 +25,10 @@ ALPHABET = ['a', 'b', 'ab', '^a', 'b$', 'a|b', '.', '',
 # verbose mode, a dangling alternation, a look-ahead
 ALPHABET2 = ['(?i)A', r'(a)\1', '(?P<n>b)a', '(?P<n>a)b', '(?x)a b', 'a|',
              'B', r'(?s)a.b', '(?=ab)a',
-             '!(?i)B', r'!(b)\1', '!(?P<n>a)a', '!b|', '!A']
+             '!(?i)B', r'!(b)\1', '!(?P<n>a)a', '!b|', '!A',
+             # only the first '!' is the negation marker: the rest is the
+             # regular expression (no candidate name contains a '!')
+             '!!a', '!!', '!!!b']
 
 
 def EXHAUSTIVE(tier):
